@@ -1,0 +1,31 @@
+//! Verification hooks (compiled only with `--cfg ckb_light_client_verif`).
+//!
+//! A process-global callback that the verification harness installs to observe
+//! (and to interrupt or pause at) linearization points of the client:
+//! storage writes (`kind = "write"`) and multi-read RPC handlers (`kind = "read"`).
+//! With no callback installed `point` is a no-op; without the cfg flag this
+//! module is not compiled at all.
+
+use std::sync::{Arc, RwLock};
+
+pub type Hook = Arc<dyn Fn(&'static str, &str) + Send + Sync>;
+
+static HOOK: RwLock<Option<Hook>> = RwLock::new(None);
+
+/// Installs (or removes) the callback.
+#[allow(dead_code)]
+pub fn set(hook: Option<Hook>) {
+    *HOOK.write().unwrap_or_else(|e| e.into_inner()) = hook;
+}
+
+/// Called by the instrumented code right before the named step.
+pub fn point(kind: &'static str, label: &str) {
+    let hook = HOOK
+        .read()
+        .unwrap_or_else(|e| e.into_inner())
+        .as_ref()
+        .map(Arc::clone);
+    if let Some(hook) = hook {
+        hook(kind, label);
+    }
+}
